@@ -29,6 +29,7 @@ type c10Case struct {
 	Desugar []int     `json:"desugar,omitempty"` // indices of commands compared with their desugared form
 	Request string    `json:"request,omitempty"` // web: the probed request r
 	Others  []string  `json:"others,omitempty"`  // web: requests served before / concurrently
+	Flags   map[string]string `json:"flags,omitempty"` // web: process options without URL parameter (command-line flags)
 	Phase   string    `json:"phase,omitempty"`   // web: "seq" | "conc" | "" (both)
 	Note    string    `json:"note,omitempty"`
 }
@@ -424,13 +425,14 @@ func c10RunInteractive(pprofBin string, cs *c10Case, m *c10Model, seen *sync.Map
 	return out
 }
 
-// c10Confirm: pprof has reports whose text varies from run to run on IDENTICAL input (weblist,
-// dot with call_tree, … — C08's subject, not C10's). A difference counts only if it is stable:
+// c10Confirm: pprof has reports whose text varies from run to run on IDENTICAL input (weblist on
+// binary-less profiles, every graph format under call_tree — C08's findings, not C10's subject). A difference
+// between "after the history" and "fresh" is a verdict only if BOTH observations are reproducible:
 //  1. equal after erasing order (token bags) ⇒ dismissed;
-//  2. the reference session is repeated: if the reference is deterministic, the session with the
-//     history must never reproduce it in 3 more runs; if the reference itself varies, both sides are
-//     run 8 times and the difference counts only if the reference showed at most 2 variants and the
-//     two sides never produced a common observation (otherwise: undecidable here, left to C08).
+//  2. the fresh reference is run 5 more times and must give the same observation every time;
+//  3. the session with the history is run 5 more times and must give ITS observation every time.
+// Any variation on either side dismisses the difference (counted under C08-… in the distribution): a leak
+// is then still caught through the deterministic commands, which are the large majority.
 func c10Confirm(pprofBin, dir, tag string, mainScript, refScript []string, got, want c10Seg, out *c10Outcome, line, sig string) bool {
 	if out.seen != nil {
 		if _, done := out.seen.Load(sig); done {
@@ -441,51 +443,17 @@ func c10Confirm(pprofBin, dir, tag string, mainScript, refScript []string, got, 
 		out.Hits = append(out.Hits, "C08-run-to-run-order-only-difference:"+c10CmdName(line))
 		return false
 	}
-	last := func(script []string, name string) (string, bool) {
-		s := c10RunSession(pprofBin, dir, name, script, false)
-		if s.Err != "" || len(s.Segs) != len(script) {
-			return "", false
-		}
-		return s.Segs[len(s.Segs)-1].mkey(), true
-	}
-	M, R := map[string]bool{got.mkey(): true}, map[string]bool{want.mkey(): true}
-	common := func() bool {
-		for k := range M {
-			if R[k] {
-				return true
+	stable := func(script []string, name string, expect string) bool {
+		for t := 0; t < 5; t++ {
+			s := c10RunSession(pprofBin, dir, fmt.Sprintf("%s-%s%d", tag, name, t), script, false)
+			if s.Err != "" || len(s.Segs) != len(script) || s.Segs[len(s.Segs)-1].mkey() != expect {
+				return false
 			}
 		}
-		return false
+		return true
 	}
-	for t := 0; t < 3; t++ {
-		if k, ok := last(refScript, fmt.Sprintf("%s-r%d", tag, t)); ok {
-			R[k] = true
-		}
-	}
-	if common() {
+	if !stable(refScript, "r", want.mkey()) || !stable(mainScript, "m", got.mkey()) {
 		out.Hits = append(out.Hits, "C08-run-to-run-nondeterministic-output:"+c10CmdName(line))
-		return false
-	}
-	rounds := 3
-	if len(R) > 1 {
-		rounds = 7
-	}
-	for t := 0; t < rounds; t++ {
-		if k, ok := last(mainScript, fmt.Sprintf("%s-m%d", tag, t)); ok {
-			M[k] = true
-		}
-		if len(R) > 1 {
-			if k, ok := last(refScript, fmt.Sprintf("%s-q%d", tag, t)); ok {
-				R[k] = true
-			}
-		}
-		if common() {
-			out.Hits = append(out.Hits, "C08-run-to-run-nondeterministic-output:"+c10CmdName(line))
-			return false
-		}
-	}
-	if len(R) > 2 {
-		out.Hits = append(out.Hits, "C08-output-too-nondeterministic-to-compare:"+c10CmdName(line))
 		return false
 	}
 	if out.seen != nil {
@@ -612,7 +580,7 @@ func c10Fold(c *Ctx, cs *c10Case, m *c10Model, o *c10Outcome, shrink bool) {
 // ---- runner ----
 
 func runC10(c *Ctx) {
-	c.Res.Rule = "interactive: random scripts (50% report commands with focus/ignore/count/-cum/>file arguments, 30% option assignments incl. invalid ones, shortcuts, built-ins, junk) on generated profiles (labels, inlining, 1-4 sample types, source files on disk) run in the real pprof binary, one process per session; every probed line's transcript+files is compared with a fresh session replaying only the assignment lines before it; the Lean model classifies the lines, predicts the options shown by `o` and what each command's arguments contribute (desugared reference). web: each case in its own process: response of r on a fresh server vs after other requests, sequentially and concurrently. non-trivial = at least one compared probe is preceded by an executed report command (interactive) / by ≥1 other view request with filter parameters (web); distinct by script text"
+	c.Res.Rule = "interactive, two script streams on generated profiles (labels, inlining, 1-4 sample types, absolute file names, four scratch source trees with different basenames/contents): (a) 60% free-form scripts — 50% report commands with focus/ignore/count/-cum/>file arguments, 30% assignments of every option incl. invalid values, shortcuts, built-ins, junk; (b) 40% toggle scripts — ONE option (40% source_path/trim_path, else any of the 31 content-relevant options) re-assigned to 2-3 different output-changing values, v1 v2 v3 v1 …, with the same file-/value-sensitive probe command after every re-assignment (list, weblist, top/tree/dot at file or line granularity, traces, tags, callgrind …) and noise reports in between. Real pprof binary, one process per session; every probed line's transcript+files is compared with a fresh session replaying only the assignment lines before it; the Lean model classifies the lines, predicts the options shown by `o` and what each command's arguments contribute (desugared reference). web: each case in processes of its own, non-URL options (source_path, trim_path, tagroot/tagleaf, divide_by) as flags: response of r on a fresh server vs after other requests, sequentially and concurrently. non-trivial = at least one compared probe is preceded by an executed report command (interactive) / by ≥1 other view request with filter parameters (web); distinct by script text"
 	if c.Replay != "" {
 		var cs c10Case
 		if err := c.LoadReplay(&cs); err != nil {
@@ -723,7 +691,7 @@ func runC10(c *Ctx) {
 	for i := range wcases {
 		p := c10GenProfile(r)
 		b, _ := c10WriteU(p)
-		cs := &c10Case{Kind: "web", Profile: hex.EncodeToString(b), Request: r.c10WebRequest(c10Types(p))}
+		cs := &c10Case{Kind: "web", Profile: hex.EncodeToString(b), Request: r.c10WebRequest(c10Types(p)), Flags: r.c10WebFlags()}
 		for k, no := 0, 3+r.Intn(6); k < no; k++ {
 			cs.Others = append(cs.Others, r.c10WebRequest(c10Types(p)))
 		}
